@@ -146,7 +146,7 @@ func (obj *Package) Use(pkg *Package) {
 			obj.vars = map[string]*VarVal{}
 		}
 		for name, vv := range pkg.vars {
-			if vv.Export {
+			if xv := obj.vars[name]; vv.Export && (xv == nil || xv.Pkg != obj) {
 				obj.vars[name] = vv
 			}
 		}
@@ -154,7 +154,7 @@ func (obj *Package) Use(pkg *Package) {
 			obj.funcs = map[string]*FuncInfo{}
 		}
 		for name, fi := range pkg.funcs {
-			if fi.Export {
+			if xf := obj.funcs[name]; fi.Export && (xf == nil || xf.Pkg != obj) {
 				obj.funcs[name] = fi
 			}
 		}
